@@ -4,6 +4,7 @@
 package main
 
 import (
+	"regexp"
 	"bytes"
 	"fmt"
 	"go/ast"
@@ -550,19 +551,15 @@ func genWire(repo, out string) {
 	if fd != nil {
 		ast.Inspect(fd.Body, func(n ast.Node) bool {
 			switch x := n.(type) {
-			case *ast.AssignStmt:
-				if len(x.Lhs) == 1 && len(x.Rhs) == 1 && x.Tok == token.DEFINE {
-					if id, ok := x.Lhs[0].(*ast.Ident); ok && id.Name == "keylen" {
-						// (A - len(table)) - B
-						if b1, ok := x.Rhs[0].(*ast.BinaryExpr); ok && b1.Op == token.SUB {
-							if b2, ok := b1.X.(*ast.BinaryExpr); ok && b2.Op == token.SUB {
-								a, ok1 := intExpr(b2.X, vars)
-								c, ok2 := intExpr(b1.Y, vars)
-								if call, ok := b2.Y.(*ast.CallExpr); ok && ok1 && ok2 {
-									if fn, ok := call.Fun.(*ast.Ident); ok && fn.Name == "len" {
-										maxRow, slack = a, c
-									}
-								}
+			case *ast.BinaryExpr:
+				// (A - len(table)) - B, wherever it stands (an assignment, an argument of min)
+				if b1 := x; b1.Op == token.SUB && maxRow == "0" {
+					if b2, ok := b1.X.(*ast.BinaryExpr); ok && b2.Op == token.SUB {
+						a, ok1 := intExpr(b2.X, vars)
+						c, ok2 := intExpr(b1.Y, vars)
+						if call, ok := b2.Y.(*ast.CallExpr); ok && ok1 && ok2 {
+							if fn, ok := call.Fun.(*ast.Ident); ok && fn.Name == "len" {
+								maxRow, slack = a, c
 							}
 						}
 					}
@@ -842,12 +839,27 @@ func loopFacts(g *gen, fd *ast.FuncDecl, prefix string) {
 	init := "none"
 	var ctxs []string
 	assignedBack := 0
+	// the back-off variable: what is handed to sleepAndIncreaseBackoff (today it is called `backoff`)
+	bvar := "backoff"
+	if fd != nil {
+		ast.Inspect(fd.Body, func(n ast.Node) bool {
+			if c, ok := n.(*ast.CallExpr); ok {
+				if id, ok := c.Fun.(*ast.Ident); ok && id.Name == "sleepAndIncreaseBackoff" && len(c.Args) == 2 {
+					if a, ok := c.Args[1].(*ast.Ident); ok {
+						bvar = a.Name
+					}
+				}
+			}
+			return true
+		})
+	}
+	names := canonNames(fd)
 	if fd != nil {
 		ast.Inspect(fd.Body, func(n ast.Node) bool {
 			switch x := n.(type) {
 			case *ast.AssignStmt:
 				if x.Tok == token.DEFINE && len(x.Lhs) == 1 && len(x.Rhs) == 1 {
-					if id, ok := x.Lhs[0].(*ast.Ident); ok && id.Name == "backoff" {
+					if id, ok := x.Lhs[0].(*ast.Ident); ok && id.Name == bvar {
 						if s, ok := intExpr(x.Rhs[0], map[string]string{"backoffStart": "Backoff.backoffStart"}); ok {
 							init = "some (" + s + ")"
 						}
@@ -856,9 +868,9 @@ func loopFacts(g *gen, fd *ast.FuncDecl, prefix string) {
 				for _, r := range x.Rhs {
 					if c, ok := r.(*ast.CallExpr); ok {
 						if id, ok := c.Fun.(*ast.Ident); ok && id.Name == "sleepAndIncreaseBackoff" && len(c.Args) == 2 {
-							ctxs = append(ctxs, exprStr(c.Args[0]))
-							if l, ok := x.Lhs[0].(*ast.Ident); ok && l.Name == "backoff" {
-								if a, ok := c.Args[1].(*ast.Ident); ok && a.Name == "backoff" {
+							ctxs = append(ctxs, canonStr(exprStr(c.Args[0]), names))
+							if l, ok := x.Lhs[0].(*ast.Ident); ok && l.Name == bvar {
+								if a, ok := c.Args[1].(*ast.Ident); ok && a.Name == bvar {
 									assignedBack++
 								}
 							}
@@ -867,7 +879,7 @@ func loopFacts(g *gen, fd *ast.FuncDecl, prefix string) {
 				}
 			case *ast.ValueSpec:
 				for _, nm := range x.Names {
-					if nm.Name == "backoff" && len(x.Values) == 0 {
+					if nm.Name == bvar && len(x.Values) == 0 {
 						init = "some 0"
 					}
 				}
@@ -886,8 +898,27 @@ func genRetryLoop(repo, out string) {
 	g := newGen("RetryLoop", "Backoff")
 	fmt.Fprintf(&g.buf, "structure Arm where\n  types : List String\n  sleeps : Bool\n  guardVar : String\n  guardN : Int\n  continues : Bool\n  incs : List String\n  marks : List String\n  deriving Repr, DecidableEq\n\n")
 	f := parse(filepath.Join(repo, "rpc.go"))
+	// the counters that bound the immediate retries are locals: they go by the names they have today
+	// ("serverErrorCount" in SendRPC, "immediateRetries" in SendBatch) whatever they are called
+	counterName := map[string]string{"SendRPC": "serverErrorCount", "SendBatch": "immediateRetries"}
 	if fd := findMethod(f, "client", "SendRPC"); fd != nil {
-		emitArms(g, "sendRPCArms", typeSwitchArms(fd))
+		arms := typeSwitchArms(fd)
+		for _, a := range arms {
+			if a.guardVar != "" {
+				counterName["SendRPC"] = a.guardVar
+			}
+		}
+		for i := range arms {
+			if arms[i].guardVar == counterName["SendRPC"] {
+				arms[i].guardVar = "serverErrorCount"
+			}
+			for j := range arms[i].incs {
+				if arms[i].incs[j] == counterName["SendRPC"] {
+					arms[i].incs[j] = "serverErrorCount"
+				}
+			}
+		}
+		emitArms(g, "sendRPCArms", arms)
 	} else {
 		g.fail("SendRPC")
 		g.def("sendRPCArms", "List Arm", "[]")
@@ -906,6 +937,7 @@ func genRetryLoop(repo, out string) {
 			sort.Strings(a.types)
 			items = append(items, leanList(a.types))
 		}
+		sort.Strings(items) // clauses for distinct concrete types: their order is immaterial
 		g.def("handleResultErrorArms", "List (List String)", "["+strings.Join(items, ", ")+"]")
 	} else {
 		g.fail("handleResultError")
@@ -918,6 +950,7 @@ func genRetryLoop(repo, out string) {
 			sort.Strings(a.types)
 			items = append(items, leanList(a.types))
 		}
+		sort.Strings(items)
 		g.def("isRegionEstablishedArms", "List (List String)", "["+strings.Join(items, ", ")+"]")
 	} else {
 		g.fail("isRegionEstablished")
@@ -938,7 +971,8 @@ func genRetryLoop(repo, out string) {
 					if be, ok := as.Rhs[0].(*ast.BinaryExpr); ok && be.Op == token.GTR {
 						if s, ok := intExpr(be.Y, map[string]string{}); ok {
 							if id, ok := be.X.(*ast.Ident); ok {
-								guard = "some (" + leanStr(id.Name) + ", " + s + ")"
+								counterName["SendBatch"] = id.Name
+								guard = "some (" + leanStr("immediateRetries") + ", " + s + ")"
 							}
 						}
 					}
@@ -956,7 +990,7 @@ func genRetryLoop(repo, out string) {
 				switch x := n.(type) {
 				case *ast.AssignStmt:
 					for i, l := range x.Lhs {
-						if id, ok := l.(*ast.Ident); ok && id.Name == fv[1] {
+						if id, ok := l.(*ast.Ident); ok && id.Name == counterName[fv[0]] {
 							rhs := "?"
 							if i < len(x.Rhs) {
 								rhs = exprStr(x.Rhs[i])
@@ -965,7 +999,7 @@ func genRetryLoop(repo, out string) {
 						}
 					}
 				case *ast.IncDecStmt:
-					if id, ok := x.X.(*ast.Ident); ok && id.Name == fv[1] {
+					if id, ok := x.X.(*ast.Ident); ok && id.Name == counterName[fv[0]] {
 						writes = append(writes, x.Tok.String())
 					}
 				}
@@ -1003,6 +1037,54 @@ func commStr(c ast.Stmt) string {
 		}
 	}
 	return "?"
+}
+
+// canonNames maps the receiver of fd and its context.Context parameters to the names the code
+// uses today (so that renaming a receiver or a context parameter regenerates the same facts):
+// the receiver by its type, a context parameter to "ctx".
+func canonNames(fd *ast.FuncDecl) map[string]string {
+	m := map[string]string{}
+	if fd == nil {
+		return m
+	}
+	if fd.Recv != nil && len(fd.Recv.List) == 1 && len(fd.Recv.List[0].Names) == 1 {
+		canon := map[string]string{"client": "c", "scanner": "s", "multi": "m", "info": "i",
+			"clientRegionCache": "rcc", "keyRegionCache": "krc"}
+		rt := strings.Split(funcName(fd), ".")[0]
+		if c, ok := canon[rt]; ok && fd.Recv.List[0].Names[0].Name != c {
+			m[fd.Recv.List[0].Names[0].Name] = c
+		}
+	}
+	if fd.Type.Params != nil {
+		for _, p := range fd.Type.Params.List {
+			if exprStr(p.Type) == "context.Context" && len(p.Names) == 1 && p.Names[0].Name != "ctx" {
+				m[p.Names[0].Name] = "ctx"
+			}
+		}
+	}
+	return m
+}
+
+// canonStr rewrites the identifiers of canonNames where they start a selector chain (`x.` → `c.`)
+// or stand alone.
+func canonStr(s string, names map[string]string) string {
+	for from, to := range names {
+		re := regexp.MustCompile(`(^|[^A-Za-z0-9_.])` + regexp.QuoteMeta(from) + `($|[^A-Za-z0-9_])`)
+		for i := 0; i < 4; i++ {
+			s = re.ReplaceAllString(s, "${1}"+to+"${2}")
+		}
+	}
+	return s
+}
+
+var resultChanRe = regexp.MustCompile(`^[A-Za-z_][A-Za-z0-9_]*\.ResultChan\(\)$`)
+
+// resultChanCanon: the result channel of a call held in a local variable, whatever it is named.
+func resultChanCanon(s string) string {
+	if resultChanRe.MatchString(s) {
+		return "call.ResultChan()"
+	}
+	return s
 }
 
 func funcName(fd *ast.FuncDecl) string {
@@ -1092,8 +1174,12 @@ func genSelects(repo, out string) {
 		}
 		// non-anchor helpers reached from an anchor are not reported on their own
 		inlined := map[string]bool{}
+		var curFn *ast.FuncDecl // the function whose body is being read (a helper while it is inlined)
 		var inspectInl func(within *ast.FuncDecl, n ast.Node, depth int, visit func(ast.Node) bool)
 		inspectInl = func(within *ast.FuncDecl, n ast.Node, depth int, visit func(ast.Node) bool) {
+			prev := curFn
+			curFn = within
+			defer func() { curFn = prev }()
 			ast.Inspect(n, func(m ast.Node) bool {
 				if !visit(m) {
 					return false
@@ -1105,6 +1191,7 @@ func genSelects(repo, out string) {
 							fmt.Fprintln(os.Stderr, "inline", pk.label, funcName(within), "<-", funcName(h))
 						}
 						inspectInl(h, h.Body, depth+1, visit)
+						curFn = within
 					}
 				}
 				return true
@@ -1139,7 +1226,7 @@ func genSelects(repo, out string) {
 					var cs []string
 					for _, c := range ss.Body.List {
 						cc := c.(*ast.CommClause)
-						cs = append(cs, commStr(cc.Comm))
+						cs = append(cs, canonStr(commStr(cc.Comm), canonNames(curFn)))
 						if cc.Comm != nil {
 							ast.Inspect(cc.Comm, func(m ast.Node) bool {
 								if m != nil {
@@ -1206,12 +1293,12 @@ func genSelects(repo, out string) {
 				case *ast.SendStmt:
 					if !inSelect[x.Pos()] {
 						bares = append(bares, fmt.Sprintf("{ file := %s, fn := %s, kind := \"send\", expr := %s }",
-							leanStr(rel), leanStr(name), leanStr(exprStr(x.Chan))))
+							leanStr(rel), leanStr(name), leanStr(resultChanCanon(canonStr(exprStr(x.Chan), canonNames(curFn))))))
 					}
 				case *ast.UnaryExpr:
 					if x.Op == token.ARROW && !inSelect[x.Pos()] {
 						bares = append(bares, fmt.Sprintf("{ file := %s, fn := %s, kind := \"recv\", expr := %s }",
-							leanStr(rel), leanStr(name), leanStr(exprStr(x.X))))
+							leanStr(rel), leanStr(name), leanStr(canonStr(exprStr(x.X), canonNames(curFn)))))
 					}
 				case *ast.CallExpr:
 					if se, ok := x.Fun.(*ast.SelectorExpr); ok {
@@ -1222,7 +1309,7 @@ func genSelects(repo, out string) {
 								leanStr(rel), leanStr(name), leanStr(exprStr(x))))
 						case se.Sel.Name == "Wait" || (se.Sel.Name == "Do" && strings.HasSuffix(strings.ToLower(exprStr(se.X)), "once")):
 							bares = append(bares, fmt.Sprintf("{ file := %s, fn := %s, kind := %s, expr := %s }",
-								leanStr(rel), leanStr(name), leanStr(strings.ToLower(se.Sel.Name)), leanStr(exprStr(se.X))))
+								leanStr(rel), leanStr(name), leanStr(strings.ToLower(se.Sel.Name)), leanStr(canonStr(exprStr(se.X), canonNames(curFn)))))
 						}
 					}
 				case *ast.RangeStmt:
